@@ -61,10 +61,36 @@ def generate(rng, index, tier, extra):
                 'entry': 'parse_immutable', 'trailing': '', 'junk': '00'}
 
 
+PAIR_SEEDS = 3
+
+
+def _generate_pairsweep(index):
+    import random as _random
+    channels = workload.STREAM_CHANNELS
+    channel = channels[index % len(channels)]
+    rng = _random.Random(1000003 * index + 17)
+    first = second = None
+    for _ in range(40):
+        try:
+            unit = channel.make(rng)
+        except workload.SenderRejected:
+            continue
+        if first is None and len(unit) <= 80:
+            first = unit
+        elif first is not None and len(unit) <= 400:
+            second = unit
+            break
+    if first is None or second is None:
+        return {'kind': 'pairsweep', 'channel': channel.name, 'first': '', 'second': ''}
+    return {'kind': 'pairsweep', 'channel': channel.name, 'first': first.hex(), 'second': second.hex()}
+
+
 GIANT_UNITS = ('mysql', 'handshake-ske', 'handshake-variant', 'handshake-status')
 
 
 def _generate(rng, index, tier, extra):  # pylint: disable=unused-argument
+    if extra and extra.get('phase') == 'pairsweep':
+        return _generate_pairsweep(index)
     roll = rng.random()
     junk = bytes(rng.getrandbits(8) for _ in range(rng.choice((1, 2, 5, 16)))).hex()
     if rng.random() < (0.0005 if tier == 'quick' else 0.0002):
@@ -126,9 +152,51 @@ def execute(doc):
         _exec_stream(doc, res)
     elif doc['kind'] == 'giant':
         _exec_giant(doc, res)
+    elif doc['kind'] == 'pairsweep':
+        _exec_pairsweep(doc, res)
     else:
         raise core.HarnessError('unknown schedule kind %r' % doc['kind'])
     return res
+
+
+def _exec_pairsweep(doc, res):
+    """Complete single-octet fault enumeration on the first of two coalesced units: every offset of the first unit
+    overwritten (all 256 values in the first 12 octets - headers, message codes -, seven values further on), the second
+    unit following it; for the first 8 octets also with 70 KiB more behind.  Whatever the parser then accepts must
+    consume what the reference framer reads from the header and must not depend on what follows."""
+    channel = workload.CHANNEL_BY_NAME[doc['channel']]
+    cls = core.get_class(channel.cls_path)
+    first, second = bytes.fromhex(doc['first']), bytes.fromhex(doc['second'])
+    if not first:
+        res.sched_sig = ('pairsweep', channel.name, 'no-units')
+        return
+    only = doc.get('only')
+    plan = only if only is not None else [
+        [offset, value, big] for offset in range(len(first))
+        for value in (range(256) if offset < 12 else (0x00, 0x01, 0x02, 0x04, 0x7f, 0x80, 0xff))
+        for big in ((False, True) if offset < 8 else (False, )) if first[offset] != value]
+    padding = None
+    cases = 0
+    for offset, value, big in plan:
+        data = first[:offset] + bytes((value, )) + first[offset + 1:] + second
+        if big:
+            if padding is None:
+                import random as _random
+                padding = _random.Random(7).randbytes(70000)
+            data += padding
+        before = len(res.violations)
+        oracles.probe_c03(cls, data, res, channel.framer, framing=True, junk=second[:7] or b'\x00')
+        for violation in res.violations[before:]:
+            violation['case'] = [offset, value, big]
+        cases += 1
+        if len(res.violations) > 3:
+            break
+    res.sim_events += cases
+    res.stats['fault.set'] += cases
+    res.stats['pairsweep.cases'] += cases
+    res.stats['runs.pairsweep'] += 1
+    res.sched_sig = ('pairsweep', channel.name, len(first), len(second))
+    res.nontrivial = True
 
 
 def _exec_giant(doc, res):
@@ -283,6 +351,14 @@ def shrink(doc, sig, budget):
         cand.update(changes)
         return core.has_sig(me, cand, sig)
 
+    if doc['kind'] == 'pairsweep':
+        result = core.guarded_execute(me, doc)
+        for violation in result.violations:
+            if violation['sig'] == sig and 'case' in violation and test_with(only=[violation['case']]):
+                return dict(doc, only=[violation['case']])
+        return doc
+    if doc['kind'] == 'giant':
+        return doc
     if doc['kind'] == 'dgram':
         doc['faults'] = core.ddmin_list(doc['faults'], lambda c: test_with(faults=c), budget)
         if doc.get('trailing') and test_with(trailing=''):
@@ -317,7 +393,9 @@ def check(tier, seed):
     histories = core.history_batch(me, seed, tier, extra)      # first: this process has executed no run yet
     core.determinism_selftest(me, seed, tier, extra, count=40)
     n_runs, wall = BUDGET[tier]
-    batch = core.merge_batches([core.run_batch(me, seed, tier, n_runs, wall, extra), histories])
+    pairs = core.run_batch(me, seed, tier, len(workload.STREAM_CHANNELS) * (PAIR_SEEDS if tier == 'quick' else 12), 600.0,
+                           {'phase': 'pairsweep'}, chunk=1)
+    batch = core.merge_batches([pairs, core.run_batch(me, seed, tier, n_runs, wall, extra), histories])
     coverage = core.coverage_from_batch(
         batch, RULE, fault_kinds=wire.FAULT_KINDS,
         probes=('accepted_with_trailing_bytes', 'corrupted_input_accepted', 'next_record_already_in_buffer'),
